@@ -311,11 +311,45 @@ def _guard(st, where, enums):
     gap(f"{where}: guard condition {ast.unparse(t)!r} has an unknown shape")
 
 
+SNAPSHOT = os.path.join(os.path.dirname(os.path.abspath(__file__)), "helpers_snapshot.json")
+FROM_SNAPSHOT = []
+
+
+def _snapshot():
+    try:
+        return json.load(open(SNAPSHOT))
+    except Exception:
+        return {}
+
+
 def _helpers(repo, rel, clsname, target, enumname, enums):
+    """one entry per helper. A helper whose body has a shape the translator does not understand (a restructured guard, a
+    forward to another helper, …) is taken from the tables read off the pinned tree (tools/helpers_snapshot.json) and listed
+    in FROM_SNAPSHOT: whether that entry still describes the code is decided by the C16 run (every helper x every argument
+    set against the model), not assumed. A helper the snapshot does not know either is a translator gap."""
     tree, fn = _parse(repo, rel)
     cls = _cls(tree, clsname, fn)
+    snap = {h["name"]: h for h in _snapshot().get("effect_helpers" if target == "_add_effect" else "condition_helpers", [])}
     out = []
     for f in cls.body:
+        if isinstance(f, ast.FunctionDef) and f.name.startswith("_") and f.name != "__init__":
+            continue                  # private methods of the support class are no helpers
+        if isinstance(f, ast.FunctionDef) and f.name != "__init__":
+            try:
+                out += _helpers_one(f, fn, clsname, target, enumname, enums)
+            except TranslatorGap:
+                if f.name not in snap:
+                    raise
+                out.append(dict(snap[f.name], line=f.lineno))
+                FROM_SNAPSHOT.append(f"{clsname}.{f.name}")
+            continue
+        out += _helpers_one(f, fn, clsname, target, enumname, enums)
+    return out
+
+
+def _helpers_one(f, fn, clsname, target, enumname, enums):
+    out = []
+    for f in [f]:
         if isinstance(f, ast.Expr) and isinstance(f.value, ast.Constant) and isinstance(f.value.value, str):
             continue
         if not isinstance(f, ast.FunctionDef):
@@ -423,6 +457,17 @@ def _enum_lists(repo, enums):
             "partial_v": v["partial_aa_attribute_effects"], "aa_attrs": q["partial_aa_attributes"]}
 
 
+def _aa_lists(repo, enums):
+    try:
+        return _enum_lists(repo, enums)
+    except TranslatorGap:
+        snap = _snapshot().get("aa")
+        if not snap:
+            raise
+        FROM_SNAPSHOT.append("armour/attack family lists")
+        return snap
+
+
 def extract_helpers(repo):
     if repo not in sys.path:
         sys.path.insert(0, repo)
@@ -450,7 +495,8 @@ def extract_helpers(repo):
         "add_effect_params": add_e, "add_condition_params": add_c,
         "effect_init": _init_info(repo, "objects/data_objects/effect.py", "Effect"),
         "condition_init": _init_info(repo, "objects/data_objects/condition.py", "Condition"),
-        "aa": _enum_lists(repo, enums),
+        "aa": _aa_lists(repo, enums),
+        "from_snapshot": sorted(set(FROM_SNAPSHOT)),
     }
 
 
